@@ -1,3 +1,3 @@
 //@op concat
 //@properties C01 C02 C03 C04 C05 C06 C09 C13 C14 C17 C20
-//@include concat_body.rs NCOND="c.n >= 1" SINKTB=sink_talkback SKIP=empty_talkback
+//@include concat_body.rs NCOND="c.n >= 1" LATE=true SINKTB=sink_talkback SKIP=empty_talkback
